@@ -110,6 +110,11 @@ def norm_cont_rule(repo, R):
     SELF_OV = sp.Symbol("SELF_OVERLAP", positive=True)
     notes = []
 
+    cgen = sp.Symbol("c", real=True, nonzero=True)  # the generic coefficient of a one-primitive shell
+    fast_paths = []
+    ONE_PRIM = {"self.exps.size == 1", "len(self.exps) == 1", "self.exps.shape[0] == 1", "self.coeffs.shape[0] == 1", "self._exps.size == 1",
+                "self.exps.size < 2", "len(self.exps) < 2"}
+
     class NC(Elem):
         def assign(self, t, v, st):
             if isinstance(t, ast.Attribute):
@@ -117,9 +122,31 @@ def norm_cont_rule(repo, R):
                 return
             Elem.assign(self, t, v, st)
 
+        def on_if(self, st):
+            # a shortcut for shells with a single primitive: there the self-overlap is S = c^2 (the primitive is normalised),
+            # so the stored norm must be 1/|c| on that path
+            if ast.unparse(st.test) in ONE_PRIM and not st.orelse and st.body and isinstance(st.body[-1], ast.Return):
+                sub = NC(self.func, dict(self.env), rule="NORMCONT")
+                sub.env["self.coeffs"] = cgen
+                sub.env["self._coeffs"] = cgen
+                for b in st.body[:-1]:
+                    sub.stmt(b)
+                fast_paths.append((st, sub.env.get("self.norm_cont")))
+                return
+            Elem.on_if(self, st)
+
         def expr(self, e):
             if isinstance(e, ast.Attribute) and ast.unparse(e) in self.env:
                 return self.env[ast.unparse(e)]
+            if isinstance(e, ast.Attribute) and ast.unparse(e) in ("self.num_cart", "self.num_seg_cont", "self.num_sph"):
+                return sp.Symbol(e.attr, positive=True, integer=True)
+            if isinstance(e, ast.Call) and ast.unparse(e.func) in ("np.repeat", "np.tile", "np.broadcast_to", "np.full", "np.ones") and e.args:
+                # spreading a value over the component axis: the same generic element
+                if ast.unparse(e.func) == "np.ones":
+                    return sp.Integer(1)
+                if ast.unparse(e.func) == "np.full":
+                    return self.expr(e.args[1])
+                return self.expr(e.args[0])
             if isinstance(e, ast.Call) and ast.unparse(e.func).endswith("Overlap.construct_array_contraction"):
                 if [ast.unparse(a) for a in e.args] == ["self", "self"] and not e.keywords:
                     return SELF_OV
@@ -152,6 +179,12 @@ def norm_cont_rule(repo, R):
     val = E.env.get("self.norm_cont")
     if val is None:
         raise AnalysisError("NORMCONT", "assign_norm_cont does not store self.norm_cont", f.where())
+    for st, fv in fast_paths:
+        okf = fv is not None and sp.simplify(fv - 1 / sp.Abs(cgen)) == 0
+        R.check(okf, "NORMCONT", f.site, "one-primitive shortcut: norm == 1/|c|",
+                "for a shell with a single (normalised) primitive the self-overlap is c^2, so the contraction norm must be 1/|c|: the shortcut "
+                f"stores {fv} (wrong for " + ("negative coefficients" if fv is not None and sp.simplify(fv - 1 / cgen) == 0 else "coefficients other than +-1") + ")",
+                where=f.where(st), expected="1/Abs(c)", found=str(fv))
     R.check(sp.simplify(val - S ** sp.Rational(-1, 2)) == 0, "NORMCONT", f.site, "self.norm_cont == S ** -0.5",
             "the contraction norm must be exactly the self-overlap to the power -1/2 (otherwise a contraction is no longer "
             "normalised, and rescaling a coefficient column changes the function)" + ("; " + "; ".join(notes) if notes else ""),
